@@ -1081,6 +1081,7 @@ PAIRV = ["header", "flags", "length", "differs", "shape", "strict-changed-step",
 
 @check("C13")
 def c13(run):
+    run.mc_leg("mc_run", "MC_Run", "MC_Run7.cfg" if run.tier == "thorough" else "MC_Run.cfg", workers=8, timeout=3000)
     r, path, n, rej = run.trace_leg("run", ["machine", "kind=run"], verdict=CONF + ["nsteps", "pause"])
     run.trace_leg("segments", ["machine", "kind=run"], spec="TV_Pairs", cfg="TV_Pairs.cfg",
                   verdict=PAIRV + ["final-differs"], expect_all=False, path=path)
